@@ -1,2 +1,17 @@
-/* placeholder */
-static const long HS_TOL_PPM[12][5]={{10000,10000,10000,10000,10000},{10000,10000,10000,10000,10000},{10000,10000,10000,10000,10000},{10000,10000,10000,10000,10000},{10000,10000,10000,10000,10000},{10000,10000,10000,10000,10000},{10000,10000,10000,10000,10000},{10000,10000,10000,10000,10000},{10000,10000,10000,10000,10000},{10000,10000,10000,10000,10000},{10000,10000,10000,10000,10000},{10000,10000,10000,10000,10000}};
+/* c05_cvbr_tol.h - GENERATED from the calibration run recorded in CALIBRATION.txt (history section): for every measured configuration (row,
+   order of HS_WIN) and window signal {white-noise, speech-like, log-sweep, dense-chord, clicks} the tolerance in ppm on top of (B*T/8 + 1)
+   = max(1 %, 2 x worst excess measured on the unchanged tree over all 15840 history runs), rounded up to 0.1 %. */
+static const long HS_TOL_PPM[12][5]={
+   { 10000, 10000, 89000, 10000, 10000},   /* SILK natural 12k/20ms    worst mean/budget: 0.8839 0.8408 1.0442 0.8117 0.6397 */
+   { 10000, 10000, 10000, 10000, 10000},   /* SILK natural 16k/60ms    worst mean/budget: 0.8876 0.8848 0.9847 0.9362 0.8073 */
+   { 10000, 10000, 94000, 10000, 10000},   /* SILK forced 16k/20ms     worst mean/budget: 0.8902 0.9128 1.0468 0.9278 0.7892 */
+   { 10000, 10000, 26000, 10000, 10000},   /* SILK forced 24k/40ms     worst mean/budget: 0.8754 0.8838 1.0126 0.9468 0.8313 */
+   { 10000, 10000, 88000, 10000, 10000},   /* hybrid natural 28k/20ms  worst mean/budget: 0.8798 0.9336 1.0440 0.9510 0.8008 */
+   { 10000, 10000, 94000,175000, 10000},   /* hybrid natural 32k/10ms  worst mean/budget: 0.8589 0.9352 1.0468 1.0875 0.8664 */
+   { 10000, 10000, 81000, 10000, 10000},   /* hybrid forced 32k/20ms   worst mean/budget: 0.8830 0.9408 1.0403 0.9404 0.7335 */
+   { 10000, 10000, 78000, 10000, 10000},   /* hybrid forced 48k/10ms   worst mean/budget: 0.8965 0.9469 1.0390 0.9848 0.7411 */
+   { 10000, 10000, 10000, 10000, 10000},   /* CELT natural 64k/20ms    worst mean/budget: 1.0011 0.9716 1.0030 1.0029 1.0028 */
+   { 10000, 10000, 10000, 10000, 10000},   /* CELT natural 32k/10ms    worst mean/budget: 1.0014 0.9614 1.0021 1.0023 1.0020 */
+   { 10000, 10000, 10000, 10000, 10000},   /* CELT forced 48k/20ms     worst mean/budget: 1.0012 0.9719 1.0033 1.0031 1.0029 */
+   { 10000, 10000, 10000, 10000, 10000},   /* CELT forced 96k/5ms      worst mean/budget: 1.0001 0.9559 1.0005 1.0005 1.0005 */
+};
